@@ -190,13 +190,28 @@ type factRec struct {
 	S       string
 	syms    []string
 	defines string
+	link    bool // relates two versions of the same heap (rely rules, monotonicity): always kept
+}
+
+// linkFact adds a fact that ties a havocked heap version to its predecessor.
+func (c *VCtx) linkFact(t *Term) {
+	if t == nil || t.S == "true" {
+		return
+	}
+	c.facts = append(c.facts, factRec{S: t.S, syms: symsOf(t.S), link: true})
 }
 
 var smtBuiltins = map[string]bool{"and": true, "or": true, "not": true, "ite": true, "select": true, "store": true, "forall": true, "exists": true,
 	"true": true, "false": true, "mod": true, "div": true, "abs": true, "as": true, "const": true, "Array": true, "Int": true, "Bool": true, "Ref": true,
 	"Any": true, "Slice": true, "Str": true, "null": true, "zero_Any": true, "nil_slice": true, "let": true, "pattern": true, "distinct": true,
 	"mk-slice": true, "s-arr": true, "s-off": true, "s-len": true, "s-cap": true, "mk-str": true, "str-len": true, "slen": true, "str-data": true,
-	"gorem": true, "godiv": true, "wrap_s": true, "wrap_u": true, "pow2": true, "shr": true, "streq": true, "hasprefix": true, "sidx": true}
+	"gorem": true, "godiv": true, "wrap_s": true, "wrap_u": true, "pow2": true, "shr": true, "streq": true, "hasprefix": true, "sidx": true, "card": true, "fin": true, "emptyset": true}
+
+// hubSymbol: symbols that occur almost everywhere and therefore say nothing about relevance.
+func hubSymbol(s string) bool {
+	return strings.Contains(s, "H!F:sync/atomic.") || strings.Contains(s, "G:alloc") || strings.Contains(s, "G:now") || strings.HasPrefix(s, "now!") ||
+		s == "closedAt" || s == "me" || strings.HasPrefix(s, "pc!") || strings.HasPrefix(s, "q!")
+}
 
 // symsOf lists the user symbols of an SMT term string.
 func symsOf(s string) []string {
@@ -236,7 +251,7 @@ func symsOf(s string) []string {
 }
 
 // sliceFacts returns the facts relevant to the given goal symbols (cone of influence).
-func (c *VCtx) sliceFacts(n int, seeds []string) []string {
+func (c *VCtx) sliceFacts(n int, seeds []string) []*factRec {
 	cone := map[string]bool{}
 	for _, s := range seeds {
 		cone[s] = true
@@ -272,10 +287,10 @@ func (c *VCtx) sliceFacts(n int, seeds []string) []string {
 			}
 		}
 	}
-	var out []string
+	var out []*factRec
 	for i := 0; i < n; i++ {
 		if inc[i] {
-			out = append(out, c.facts[i].S)
+			out = append(out, &c.facts[i])
 		}
 	}
 	return out
@@ -395,18 +410,46 @@ func (c *VCtx) prove(kind, desc string, guard, goal *Term, vars map[string]strin
 		sb.WriteString(d)
 		sb.WriteString("\n")
 	}
-	for _, f := range c.sliceFacts(len(c.facts), append(symsOf(guard.S), symsOf(goal.S)...)) {
-		sb.WriteString("(assert ")
-		sb.WriteString(f)
-		sb.WriteString(")\n")
+	head := sb.String()
+	seeds := append(symsOf(guard.S), symsOf(goal.S)...)
+	facts := c.sliceFacts(len(c.facts), seeds)
+	tail := "(assert " + guard.S + ")\n(assert (not " + goal.S + "))\n(check-sat)\n"
+	var full, focus strings.Builder
+	full.WriteString(head)
+	focus.WriteString(head)
+	// focused variant: quantified assumptions are kept only if they share a (non-hub) symbol with the goal
+	q := map[string]bool{}
+	for _, s := range seeds {
+		if !hubSymbol(s) {
+			q[s] = true
+		}
 	}
-	sb.WriteString("(assert ")
-	sb.WriteString(guard.S)
-	sb.WriteString(")\n(assert (not ")
-	sb.WriteString(goal.S)
-	sb.WriteString("))\n(check-sat)\n")
+	dropped := 0
+	for _, fr := range facts {
+		f := fr.S
+		full.WriteString("(assert " + f + ")\n")
+		if !fr.link && fr.defines == "" && (strings.Contains(f, "(forall ") || strings.Contains(f, "(exists ")) {
+			rel := false
+			for _, s := range fr.syms {
+				if q[s] {
+					rel = true
+					break
+				}
+			}
+			if !rel {
+				dropped++
+				continue
+			}
+		}
+		focus.WriteString("(assert " + f + ")\n")
+	}
+	full.WriteString(tail)
+	focus.WriteString(tail)
 	name := shortPkg(fnPkgPath(c.top)) + "." + FuncKey(c.top) + "#" + c.oblName(kind)
-	o := &Obligation{Name: name, Props: c.props, Kind: kind, Func: FuncKey(c.top), SMT: sb.String(), Desc: desc, Vars: vars}
+	o := &Obligation{Name: name, Props: c.props, Kind: kind, Func: FuncKey(c.top), SMT: full.String(), Desc: desc, Vars: vars}
+	if dropped > 0 {
+		o.SMTFocus = focus.String()
+	}
 	c.obls = append(c.obls, o)
 }
 
@@ -896,6 +939,10 @@ func (c *VCtx) execFunction(fr *Frame, st *State) (*State, Val) {
 	}
 	if fr.contract != nil {
 		c.runGhost(fr, st, fr.contract, "entry", nil)
+		if fr.contract.Asserts != nil && len(fr.contract.Asserts["entry"]) > 0 {
+			fr.curBlock = fn.Blocks[0]
+			c.pointAsserts(fr, st, "entry", fn.Pos())
+		}
 	}
 	incoming := map[*ssa.BasicBlock][]inEdge{}
 	incoming[fn.Blocks[0]] = []inEdge{{nil, st}}
